@@ -672,3 +672,20 @@ def c16_loss_class(rec, params):
     '''the trace specification names the loss class of a delimited round trip that does not reproduce the table (SFDelim: LossTabQuoting,
     LossEdgeBlank, LossBlankCell, LossNumpyUpgrade); each known finding covers exactly one class'''
     return rec.get('clause') == params.get('clause')
+
+
+@classifier
+def c03_object_resolved_all_nan(rec, params):
+    '''a reduction with skipna over a Frame whose dtypes resolve to object (Boolean columns next to numeric ones): every block is cast to object first;
+    NumPy's nanmin / nanmax on a 1-D object array that is entirely NaN raises AttributeError ('float' object has no attribute 'dtype'), on the same
+    column held in a 2-D block it returns NaN'''
+    case = rec.get('case') or {}
+    if case.get('op') not in params.get('ops', []):
+        return False
+    cols = (case.get('f') or {}).get('cols', [])
+    kinds = {c['dt'][0] for c in cols}
+    if not ('b' in kinds and kinds & {'i', 'f'}):
+        return False
+    all_nan = any(c['dt'][0] == 'f' and c['vals'] and all(v[0] == 'nan' for v in c['vals']) for c in cols)
+    sides = [rec.get('actual') or {}, rec.get('expected') or {}]
+    return all_nan and any(x.get('k') == 'err' and 'AttributeError' in str(x.get('cat')) for x in sides if isinstance(x, dict))
